@@ -160,6 +160,16 @@ def run(tier, seed, out):
     out.extra["design_level_examples"] = [d["de"] for d in gen.design[:3]]
     recs = kit.drive("harness.c13", "drive_case", cases, {"envs": envs}, chunk=300)
     out.evaluations += sum((2 + (3 if r["full"] else 0)) * len(envs) for r in recs)
+
+    def corrupt(r):      # a recorded compiled value off by one / a swapped parameter order
+        if r["c"].get("r") == "vals" and r["e"]["t"] in ("Sum", "Product") \
+                and r["c"]["vals"][0].get("k") == "int":
+            r["c"]["vals"][0]["n"] += 1
+            return r
+        return None
+    out.extra["corrupted_records_rejected"] = kit.corruption_control(
+        "C13_Judge", "C13_Judge", recs, corrupt, wd, flagged=lambda v: any(
+            b["v"]["v"] not in ("OK", "SKIP") for b in v.get("bad", [])))
     judge(out, recs, wd)
     for r in recs:
         out.note_case([r["e"], r["listed"]], nontrivial=r["e"]["t"] not in ("Var", "Const"))
